@@ -1,24 +1,11 @@
 //! `rmv` -- property-based / fuzzing verification harness for reactive-mutiny (see /verif/DESIGN.md)
 
-mod chan;
-mod driver;
-mod lin;
-mod payload;
-mod props;
-mod sched;
-
+use rmv::{driver, sched, registry, assumptions_for, verif_dir, PartEntry, VIOLATION_PRINTED};
 use driver::{Cfg, PartResult, Tier};
 use std::path::PathBuf;
 use std::sync::atomic::{AtomicBool, Ordering};
 use std::time::Instant;
 
-pub static QUIET_ALL_PANICS: AtomicBool = AtomicBool::new(false);
-/// a VIOLATION line has already been printed by this process (the watchdog must not turn the exit code into 'inconclusive')
-pub static VIOLATION_PRINTED: AtomicBool = AtomicBool::new(false);
-
-fn verif_dir() -> PathBuf {
-    std::env::var("VERIF_DIR").map(PathBuf::from).unwrap_or_else(|_| PathBuf::from("/verif"))
-}
 
 fn usage() -> ! {
     eprintln!("usage: rmv check <property-id> <quick|thorough>\n       rmv replay <file>");
@@ -47,76 +34,6 @@ fn start_watchdog(limit_s: u64) {
             }
         }
     });
-}
-
-struct PartEntry {
-    property:    &'static str,
-    name:        &'static str,
-    run:         fn(&Cfg) -> PartResult,
-    replay:      fn(&driver::ReplayFile) -> Result<driver::RunReport, String>,
-}
-
-macro_rules! part {
-    ($prop:expr, $ty:expr) => {
-        PartEntry {
-            property: $prop,
-            name:     driver::Property::part(&$ty),
-            run:      |cfg| driver::run_part(&$ty, cfg),
-            replay:   |file| driver::replay_part(&$ty, file),
-        }
-    }
-}
-
-fn registry() -> Vec<PartEntry> {
-    use props::*;
-    vec![
-        part!("C01", uni::C01Uni),
-        part!("C02", containers::Rings),
-        part!("C02", uni::C02Uni),
-        part!("C03", uni::C03Multi),
-        part!("C04", uni::C04Uni),
-        part!("C04", uni::C04Multi),
-        part!("C05", life::C05Sched),
-        part!("C05", seq::C05Seq),
-        part!("C06", life::C06EndAll),
-        part!("C06", rtchan::C06Uni),
-        part!("C06", rtchan::C06Multi),
-        part!("C07", life::C07CancelAll),
-        part!("C07", life::C07EndOne),
-        part!("C07", rtchan::C07Multi),
-        part!("C08", seq::C08Reserved),
-        part!("C08", life::C08Sched),
-        part!("C09", log::C09Log),
-        part!("C10", seq::C10Lifetimes),
-        part!("C11", rt::C11Exec),
-        part!("C11", rtchan::C11Uni),
-        part!("C11", rtchan::C11Multi),
-        part!("C12", rt::C12Exec),
-        part!("C12", rtchan::C12Uni),
-        part!("C12", rtchan::C12Multi),
-        part!("C13", alloc::C13Pool),
-        part!("C14", alloc::C14Handles),
-        part!("C15", seq::C15Channels),
-        part!("C15", seq::C15Raw),
-        part!("C16", life::C16Retry),
-        part!("C16", seq::C16Seq),
-        part!("C17", life::C17Churn),
-        part!("C18", containers::Standalone),
-        part!("C19", alloc::C19Average),
-        part!("C20", life::C20Suspended),
-    ]
-}
-
-fn assumptions_for(id: &str) -> Vec<&'static str> {
-    let mut v = vec![
-        "controlled-schedule parts explore sequentially consistent interleavings only: one logical thread runs at a time, control changes hands at the library's atomic operations, at verif::yield_point()s and at harness events",
-        "compare_exchange_weak never fails spuriously (executed as the strong version)",
-    ];
-    match id {
-        "C18" => v.push("parking_lot's mutex is not instrumented: under the controlled scheduler the parking-lot stack's operations are atomic"),
-        _ => {},
-    }
-    v
 }
 
 /// committed regression cases: run first, in every tier
@@ -289,6 +206,22 @@ fn main() {
                     }
                 },
                 Err(e) => { eprintln!("cannot replay: {e}"); std::process::exit(2) },
+            }
+        },
+        "parts" => { for e in registry() { println!("{} {}", e.property, e.name); } },
+        // `rmv fuzz-once <part> <file>`: decodes one libFuzzer input into a case of that part, runs it, prints the report (strict)
+        "fuzz-once" => {
+            if args.len() < 4 { usage(); }
+            let data = std::fs::read(&args[3]).expect("read input file");
+            let reg = registry();
+            let entry = reg.iter().find(|p| p.name == args[2]).unwrap_or_else(|| { eprintln!("unknown part"); std::process::exit(2) });
+            match (entry.fuzz)(&data) {
+                None => { println!("input does not decode into a case"); std::process::exit(2) },
+                Some((rep, case)) => {
+                    println!("case: {}", serde_json::to_string(&case).unwrap_or_default());
+                    println!("verdict: {:?}\n  {}", rep.verdict, rep.summary);
+                    std::process::exit(if matches!(rep.verdict, driver::Verdict::Violation { .. }) { 1 } else { 0 });
+                },
             }
         },
         _ => usage(),
